@@ -53,6 +53,11 @@ WithRoute(a, p) == [a EXCEPT !.def = SubWithRoute(@, p)]
 WithWsRoute(a, p) == [a EXCEPT !.def = SubWithWsRoute(@, p)]
 \* with_host panics for h = "*"; it overwrites the sub-app's host field
 WithHost(a, h, s) == [a EXCEPT !.hosts = Append(@, [s EXCEPT !.host = h])]
+\* with_default_subapp REPLACES the default sub-app: routes registered on the app before are gone, later
+\* with_route / with_websocket_route calls append to the new one (threaded App only)
+WithDefaultSubapp(a, s) == [a EXCEPT !.def = s]
+\* deprecated with_websocket_handler(h) = with_websocket_route("*", h) (threaded App only)
+WithWebsocketHandler(a) == WithWsRoute(a, <<STAR>>)
 
 Routes(s, kind) == IF kind = "ws" THEN s.ws ELSE s.http
 SubOf(a, s) == IF s = 0 THEN a.def ELSE a.hosts[s]
